@@ -92,7 +92,7 @@ def abandoned_iterator_programs(draw):
     if how == 'until':
         cl = {'name': 'cl', 'steps': [{'op': 'until', 'notif': ['delay', g], 'children': [], 'body': [op]}] + tail}
     elif how == 'scope':
-        cl = {'name': 'cl', 'steps': [{'op': 'scope', 'name': 'G', 'catch': True, 'body': [op], 'children': [
+        cl = {'name': 'cl', 'steps': [{'op': 'scope', 'catch': True, 'body': [op], 'children': [
             {'name': 'gf', 'steps': [{'op': 'sleep', 'd': g}, {'op': 'raise', 'eid': 900, 'cls': 'K'}]}]}] + tail}
     else:
         cl = {'name': 'cl', 'steps': [op] + tail}
@@ -347,6 +347,11 @@ class C02(Check):
         for a in p.acts:
             by_time.setdefault(a[1], []).append((a[2], a[5]))
         busy = False
+        if p.absorbed:
+            # a positive delay below the resolution of the clock is due "now" but queued like a later date: outside the
+            # range of dates for which same-time order is stated (DESIGN 6.2, float absorption)
+            out.features.add('absorbed_delay')
+            by_time = {}
         for t, acts in by_time.items():
             if len({x[0] for x in acts}) >= 3:
                 busy = True
